@@ -545,6 +545,30 @@ func (s *sup) api(start, exec *core.FuncDecl) {
 						}
 					}
 				}
+				// "the root context is dead, forget it": the context whose Err() is consulted before the
+				// container's ctx field is cleared is that field itself (not the caller's own context)
+				if assignsField(ev, s.ctxFld, "nil") && g.sec[i] >= 0 {
+					consulted, own := false, false
+					for j := g.sec[i]; j < i; j++ {
+						if l := g.lits[j]; l != nil {
+							ats := map[string]*formula{}
+							l.f.atoms(ats)
+							for n := range ats {
+								if strings.Contains(n, ".Err()") {
+									consulted = true
+									if strings.Contains(n, s.ctxFld+".Err()") {
+										own = true
+									}
+								}
+							}
+						}
+					}
+					if consulted {
+						a.note("R12", enclosingName(c, ev)+"/forgets-only-its-own-dead-context", ev.Pos, !own,
+							"the container's context is forgotten because its own Err() is non-nil",
+							"the container's ctx field is cleared after consulting the Err() of another context (the caller's): a waiter with a cancelled context makes the container forget a live root context, and a later ClearContext/SetContext finds nothing to stop", p)
+					}
+				}
 				if assignsField(ev, s.ctxFld, "") {
 					for k := range ctxLoaded {
 						delete(ctxLoaded, k)
@@ -1324,6 +1348,19 @@ func (s *sup) routineExtras() {
 			})
 			a.note("R12", name+"/closure-captures-copy", lit.Pos(), bad != "", "the routine closure uses the state and function copied under the lock",
 				"the routine closure reads "+bad+" when it runs, outside the lock and possibly after a newer state was stored", nil)
+			// the Routine the container supervises IS the user's state routine: it is called on the
+			// instance's own goroutine and the closure returns when it returns (the exit-channel chain
+			// tracks the closure's return, not a goroutine it started)
+			async := token.NoPos
+			ast.Inspect(lit.Body, func(x ast.Node) bool {
+				if gs, ok := x.(*ast.GoStmt); ok && !async.IsValid() {
+					async = gs.Pos()
+				}
+				return true
+			})
+			a.note("R12", name+"/closure-calls-routine-synchronously", lit.Pos(), async.IsValid(),
+				"the routine closure calls the state routine on its own goroutine and returns when it returns",
+				"the routine closure starts a goroutine: it can return (and the instance be reported as exited, the next one started) while the user's function is still executing", nil)
 			return false
 		})
 		_ = n
@@ -1361,11 +1398,23 @@ func runGbackoff(c *Ctx) {
 				return
 			}
 			fs := map[string]bool{}
-			for _, ev := range p.Events {
+			lastSet, lastReset := -1, -1
+			for i, ev := range p.Events {
 				if ev.Kind == core.KAssign && !ev.FieldInit && ev.Var != nil && ev.Var.IsField() && !core.InModule(ev.Var) {
 					fs[ev.Var.Name()] = true
 					all[ev.Var.Name()] = true
+					lastSet = i
 				}
+				if ev.Kind == core.KCall && ev.Callee != nil && ev.Callee.Name() == "Reset" && !core.InModule(ev.Callee) {
+					lastReset = i
+				}
+			}
+			// a third-party back-off whose tunables were assigned after construction is Reset afterwards:
+			// its current interval was computed from the defaults when it was constructed
+			if lastSet >= 0 {
+				a.note("R12", name+"/reset-after-configuration", p.Events[lastSet].Pos, lastReset < lastSet,
+					"the third-party back-off is Reset after its tunables were assigned",
+					"the tunables of the third-party back-off are assigned after its construction and it is not Reset afterwards: the first intervals are the ones computed from the library defaults (500ms initial interval), not the configured ones", p)
 			}
 			pws = append(pws, pw{fs, p})
 		})
